@@ -34,6 +34,13 @@ static inline double bound_or_inf(int k, bool upper)
 // real write accessors, with a symbolic small integer (nonzeros assumed != 0).
 template<int NR, int NC> static inline void build(LP& lp, Dense<NR, NC>& d, unsigned mask, int k)
 {
+   {  // pre-size the dense arrays of both sets: otherwise every add() re-allocates and copies them (measured: 2x3 build
+      // 13.8M SAT variables without, 0.9M with)
+      LPColSetBase<double>& cs = lp; cs.low.reDim(NC); cs.up.reDim(NC); cs.object.reDim(NC); cs.scaleExp.reSize(NC);
+      LPRowSetBase<double>& rs = lp; rs.left.reDim(NR); rs.right.reDim(NR); rs.object.reDim(NR); rs.scaleExp.reSize(NR);
+      cs.low.reDim(0); cs.up.reDim(0); cs.object.reDim(0); cs.scaleExp.reSize(0);
+      rs.left.reDim(0); rs.right.reDim(0); rs.object.reDim(0); rs.scaleExp.reSize(0);
+   }
 #ifdef VP_LP_VIA_ADDROW
    // through the public adders (doAddCol/doAddRow maintain the mirrored copies): slower to execute symbolically
    for(int j = 0; j < NC; ++j)
